@@ -128,7 +128,7 @@ fn check_script(bytes: &[u8]) {
 }
 
 /// every single-opcode script
-// @h c04_lex_1 timeout=900 mem=8
+// @h c04_lex_1 timeout=900 mem=6
 #[cfg_attr(kani, kani::proof)]
 #[cfg_attr(kani, kani::unwind(8))]
 pub fn c04_lex_1() {
@@ -138,7 +138,7 @@ pub fn c04_lex_1() {
 }
 
 /// every one-byte push (number minimality)
-// @h c04_lex_push1 timeout=1800 mem=10
+// @h c04_lex_push1 timeout=1800 mem=6
 #[cfg_attr(kani, kani::proof)]
 #[cfg_attr(kani, kani::unwind(8))]
 pub fn c04_lex_push1() {
@@ -167,7 +167,7 @@ macro_rules! first_op {
         }
     };
 }
-// @h c04_lex2_* timeout=1200 mem=10
+// @h c04_lex2_* timeout=1200 mem=6
 // @h c04_lex2_equalverify tier=thorough mem=16 timeout=2400
 // @h c04_lex2_verify tier=thorough
 // @h c04_lex2_num tier=thorough
